@@ -1505,6 +1505,180 @@ class C15(SimpleSpec):
         return out
 
 
+
+def norm_values(v):
+    """a store value as multisets: lists of entries sorted, empty tables dropped"""
+    if isinstance(v, dict):
+        out = {}
+        for k, x in v.items():
+            n = norm_values(x)
+            if n in ({}, [], None):
+                continue
+            out[k] = n
+        return out
+    if isinstance(v, list):
+        l = [norm_values(x) for x in v]
+        if all(isinstance(x, dict) for x in l):
+            return sorted(l, key=lambda x: json.dumps(x, sort_keys=True))
+        return l
+    return v
+
+
+SERDE_KEYS = {"who": "who", "criteria": "criteria", "version": "version", "delta": "delta", "violation": "violation",
+              "importable": "importable", "notes": "notes", "aggregated-from": "aggregated-from", "suggest": "suggest",
+              "user-id": "user-id", "start": "start", "end": "end", "renew": "renew", "description": "description",
+              "description-url": "description-url", "implies": "implies"}
+
+
+class C14(Spec):
+    pid = "C14"
+    coq_files = ["Properties/C14.v"]
+    theorems = ["C14_string_or_vec_roundtrip", "C14_audit_entry_roundtrip", "C14_exemption_roundtrip",
+                "C14_wildcard_entry_roundtrip", "C14_criteria_entry_roundtrip", "C14_tidy_is_canonical"]
+    level_text = ("Theorems about the model of cargo-vet's own (de)serialisation layer over an abstract TOML value, for ALL entries: "
+                  "string_or_vec, the AuditEntry<->AuditEntryAll conversion (kind fields, importable default), exemptions (suggest "
+                  "default), wildcard entries (renew), criteria entries (skip-if-empty lists, optional fields) decode what they encode; "
+                  "tidy is idempotent for any total transitive order. PARTIAL: the text level (toml_edit printing, toml parsing, the "
+                  "layout pass, the user-id comment) is library code below the model; it is exercised by write -> read with the locked "
+                  "formatting self-check -> write on generated stores full of nasty text, comparing values (as multisets) and bytes.")
+    level_note = ("The model's encoding is compared, entry by entry, with what the real Serialize impls produce (serde_json dump of every "
+                  "entry of every generated store). Two defects of the unchanged tree were repaired by `fix:` commits (newline in a "
+                  "publisher name escaping the comment; order-dependent choice of the comment).")
+    design_ref = "DESIGN.md §4 C14"
+    rule = ("generated stores with every record kind, optional fields present/absent, empty / singleton / long lists (wrapping "
+            "thresholds), versioned and unversioned policies, git-revision versions, aggregated-from chains, renew flags, and free text "
+            "from a nasty-string stream (multi-line, quotes, triple quotes, backslashes, unicode, control characters, '#', ']', 130-char "
+            "lines) in notes, who, descriptions and publisher names; non-trivial = the store has at least one nasty string")
+    projection_doc = "per entry: the table of (key, value) pairs produced by the real Serialize impl vs the model's enc_* function"
+    assumptions = ["strings, versions and dates are opaque tokens in the model"]
+    quick_n = 150
+    thorough_n = 2000
+
+    def model_modules_paths(self):
+        return ["ShowSerde"]
+
+    def gen_cases(self, rng, n):
+        return [gen.gen_serde_case(rng, f"d{i}") for i in range(n)]
+
+    def run(self, rng, tier, work, model_ok=True, ncases=None, replay=None):
+        n = ncases or (self.quick_n if tier == "quick" else self.thorough_n)
+        if replay:
+            with open(replay) as f:
+                r = json.load(f)
+            cases = [r.get("case", r)]
+            cases[0].setdefault("id", "replay")
+        else:
+            cases = load_corpus(self.pid) + self.gen_cases(rng, n)
+        obs = vetlib.run_harness([gen.strip_struct(c) for c in cases], os.path.join(work, "impl"))
+        res = {"cases": [c["id"] for c in cases], "mismatches": [], "oracle_failures": [], "samples": [],
+               "findings_seen": {}, "stats": {}}
+        bycase = {c["id"]: c for c in cases}
+        exprs = []
+        expect = {}
+        nontrivial = 0
+        dist = Counter()
+        for cid, o in obs.items():
+            case = bycase[cid]
+            if o["status"] == "refused":
+                dist["refused:" + o.get("error_kind", "?")] += 1
+                continue
+            if o["status"] != "ok":
+                res["mismatches"].append({"id": cid, "why": f"implementation {o['status']}: " + str(o.get("panic") or o.get("error"))[:300],
+                                          "case": gen.strip_struct(case)})
+                continue
+            e = vetlib.parse_sexp(o["obs"])
+            flags = {x[0]: x[1] for x in e[1:]}
+            dist[o["obs"][:60]] += 1
+            # ---- direct oracle: the round trip itself
+            if flags["parse_back"] != "ok":
+                res["oracle_failures"].append({"id": cid, "what": f"a store cargo-vet wrote cannot be read back: {flags['parse_back']}", "finding": None,
+                                               "case": gen.strip_struct(case)})
+            else:
+                if norm_values(o["values"]) != norm_values(o["values_reread"]):
+                    res["oracle_failures"].append({"id": cid, "what": "the store read back differs from the store written (as multisets of entries)",
+                                                   "finding": None, "case": gen.strip_struct(case)})
+                if flags["bytes_equal_unchecked"] != "1":
+                    res["oracle_failures"].append({"id": cid, "what": "writing what was just read does not reproduce the same bytes", "finding": None,
+                                                   "case": gen.strip_struct(case)})
+                if flags["locked_reload"] not in ("ok", "refused_ImportsLockOutdated"):
+                    res["oracle_failures"].append({"id": cid, "what": f"a locked load refuses the files cargo-vet itself produced: {flags['locked_reload']}",
+                                                   "finding": None, "case": gen.strip_struct(case)})
+            if any(ord(ch) < 32 or ch in "\"'#\\" for t in case["store"].values() for ch in t):
+                nontrivial += 1
+            # ---- model tie: the encoding layer, entry by entry
+            toks = {}
+
+            def tk(s_):
+                return toks.setdefault(s_, len(toks))
+
+            def L(l):
+                return "[" + "; ".join(f"{tk(x)}%N" for x in l) + "]"
+
+            def OPT(x):
+                return "None" if x is None else f"(Some {tk(x)}%N)"
+            for k, ent in enumerate(o.get("entries", [])[:40]):
+                t = ent["typed"]
+                if ent["type"] == "audit":
+                    kd = t["kind"]
+                    kind = (f"(AFull {tk(kd['full'])}%N)" if "full" in kd else
+                            f"(ADelta {tk(kd['delta'][0])}%N {tk(kd['delta'][1])}%N)" if "delta" in kd else f"(AViolation {tk(kd['violation'])}%N)")
+                    ex = (f"stable (enc_audit (Build_audit_entry {L(t['who'])} {L(t['criteria'])} {kind} "
+                          f"{'true' if t['importable'] else 'false'} {OPT(t['notes'])} {L(t['agg'])}))")
+                elif ent["type"] == "exemption":
+                    ex = (f"stable (enc_exemption (Build_exemption_entry {tk(t['version'])}%N {L(t['criteria'])} "
+                          f"{'true' if t['suggest'] else 'false'} {OPT(t['notes'])}))")
+                elif ent["type"] == "wildcard":
+                    rn = "None" if t["renew"] is None else f"(Some {'true' if t['renew'] else 'false'})"
+                    ex = (f"stable (enc_wildcard (Build_wildcard_entry {L(t['who'])} {L(t['criteria'])} {t['user']}%N {tk(t['start'])}%N "
+                          f"{tk(t['end'])}%N {rn} {OPT(t['notes'])} {L(t['agg'])}))")
+                else:
+                    ex = (f"stable (enc_criteria (Build_criteria_entry {OPT(t['description'])} {OPT(t['url'])} {L(t['implies'])} {L(t['agg'])}))")
+                key = f"{cid}#{k}"
+                exprs.append((key, ex))
+                # what the real Serialize impl produced, in the model's vocabulary
+                real = []
+                for jk, jv in ent["json"].items():
+                    if jv is None:
+                        continue
+                    if isinstance(jv, bool):
+                        real.append([jk, ["bool", "1" if jv else "0"]])
+                    elif isinstance(jv, int):
+                        real.append([jk, ["int", str(jv)]])
+                    elif isinstance(jv, list):
+                        real.append([jk, ["arr"] + [str(tk(x)) for x in jv]])
+                    elif jk == "delta":
+                        a_, b_ = jv.split(" -> ")
+                        real.append([jk, ["delta", str(tk(a_)), str(tk(b_))]])
+                    else:
+                        real.append([jk, ["str", str(tk(jv))]])
+                expect[key] = (real, cid, case)
+            if len(res["samples"]) < 2:
+                res["samples"].append({"id": cid, "audits_toml_written": o["written"]["audits"][:600], "observation": o["obs"]})
+        model = vetlib.run_model(exprs, os.path.join(work, "model"), ["Base", "Show", "Serde", "ShowSerde"]) if model_ok else {}
+        compared = 0
+        for key, (real, cid, case) in expect.items():
+            if key not in model:
+                continue
+            m = model[key]
+            if m.startswith("MODEL-ERROR"):
+                res["mismatches"].append({"id": cid, "why": "model evaluation failed: " + m[:200], "case": gen.strip_struct(case)})
+                continue
+            compared += 1
+            e = vetlib.parse_sexp(m)
+            got = sorted([x[0], x[1]] for x in e[1:])
+            real = sorted(real)
+            if got != real:
+                res["mismatches"].append({"id": cid, "why": "the model's encoding of an entry differs from the real Serialize output",
+                                          "impl": json.dumps(real)[:400], "model": json.dumps(got)[:400], "case": gen.strip_struct(case)})
+        res["nontrivial"] = nontrivial
+        res["stats"] = {"harness_status": dict(Counter(o["status"] for o in obs.values())), "compared": compared,
+                        "distribution": dict(dist)}
+        if res["mismatches"]:
+            with open(os.path.join(work, "mismatches.json"), "w") as f:
+                json.dump(res["mismatches"][:20], f, indent=1)
+        return res
+
+
 import hist  # noqa: E402
 
 
@@ -1626,7 +1800,7 @@ class C13(HistorySpec):
     assumptions = C09.assumptions
 
 
-REGISTRY = {c.pid: c for c in [C01, C02, C04, C05, C06, C07, C08, C09, C10, C11, C12, C13, C15, C16, C17]}
+REGISTRY = {c.pid: c for c in [C01, C02, C04, C05, C06, C07, C08, C09, C10, C11, C12, C13, C14, C15, C16, C17]}
 
 
 def get(pid):
